@@ -395,6 +395,12 @@ func (cs *clientStream) doHttpCall(transport http.RoundTripper, req *http.Reques
 		}
 		defer cs.rMu.Unlock()
 
+		if rErr == io.EOF {
+			// The reply ended (or the connection was closed) before the
+			// trailer frame was seen. That is a failed call: a bare io.EOF
+			// would be reported by RecvMsg as a clean end-of-stream.
+			rErr = io.ErrUnexpectedEOF
+		}
 		if rErr != nil && cs.rErr == nil {
 			cs.rErr = rErr
 		}
